@@ -11,6 +11,8 @@ CONSTANTS
   Pads = {0}
   Padfs = {0}
   Showdups = {FALSE}
+  FaultOps = {}
+  FaultKs = {}
 VIEW view
 PROPERTIES Prop_C17
 CHECK_DEADLOCK FALSE
